@@ -434,8 +434,12 @@ func c15RunSender(c c15Case, dir string) c15Result {
 	src := filepath.Join(dir, "src")
 	os.RemoveAll(src)
 	os.MkdirAll(src, 0755)
-	os.WriteFile(filepath.Join(src, "f1.bin"), verifkit.Content(1, 40), 0644)
-	os.WriteFile(filepath.Join(src, "f2.bin"), verifkit.Content(2, 25), 0644)
+	os.WriteFile(filepath.Join(src, "f1.bin"), verifkit.Content(1, 400), 0644)
+	if c.Arg%2 == 1 {
+		// (with two small files the scheduler admits them one at a time, and a receiver that
+		// never confirms the first keeps the second from starting; half the cases use one file)
+		os.WriteFile(filepath.Join(src, "f2.bin"), verifkit.Content(2, 25), 0644)
+	}
 	m, err := manifest.Scan(src)
 	if err != nil {
 		return c15Result{Returned: true, Err: "scan: " + err.Error()}
@@ -507,10 +511,21 @@ func c15RunSender(c c15Case, dir string) c15Result {
 		w.W.Write(be32b(3))
 		w.W.Write(be32b(0xfffffff0))
 	case "resumeinfo-short-bitmap":
-		writeFileResumeInfo(w, FileResumeInfo{FileID: files[int(c.Arg%uint64(len(files)))].ID, StreamID: key, TotalChunks: 3, Bitmap: []byte{}, LastVerifiedChunk: 1})
+		// the right chunk count, but a bitmap shorter (or longer) than that count needs
+		for _, f := range files {
+			total := uint32((f.Size + 15) / 16)
+			need := int(total+7) / 8
+			bl := need // files whose bitmap is a single byte get a correct report
+			if need >= 2 {
+				bl = 1 + int(c.Arg%uint64(need-1)) // non-empty but too short
+			}
+			writeFileResumeInfo(w, FileResumeInfo{FileID: f.ID, StreamID: fileKeyForItem(f), TotalChunks: total, Bitmap: bytes.Repeat([]byte{0xff}, bl), LastVerifiedChunk: total - 1, LastVerifiedHash: ^uint64(0)})
+		}
 		w2 := &vBufStream{}
 		writeFileResumeInfo(w2, FileResumeInfo{FileID: "", StreamID: fileKeyForItem(files[0]), TotalChunks: 3, Bitmap: []byte{1, 2, 3, 4}, LastVerifiedChunk: 900})
-		w.W.Write(w2.W.Bytes())
+		if c.Arg%5 == 0 {
+			w.W.Write(w2.W.Bytes())
+		}
 	case "resumeinfo-wrong-total":
 		writeFileResumeInfo(w, FileResumeInfo{FileID: files[0].ID, StreamID: fileKeyForItem(files[0]), TotalChunks: uint32(c.Arg), Bitmap: []byte{0xff}, LastVerifiedChunk: uint32(c.Arg >> 32)})
 	case "resumeinfo-wrong-id":
@@ -526,7 +541,7 @@ func c15RunSender(c c15Case, dir string) c15Result {
 		w.W.Write(bb[:1+int(c.Arg%uint64(len(bb)-1))])
 	}
 	ctl.Write(w.W.Bytes())
-	time.Sleep(3 * time.Millisecond)
+	time.Sleep(25 * time.Millisecond) // let the sender act on what it was told before the peer goes away
 	switch c.Close {
 	case "close-conn":
 		b.Close()
